@@ -41,7 +41,7 @@ static bool contains(const std::string &hay, const std::string &needle) {
     return nz >= 8 && hay.find(needle) != std::string::npos;
 }
 static std::string raw32(const int32_t *p, size_t n) { return std::string((const char *) p, n * 4); }
-static std::string ctbytes(const LweSample *s, int n) { std::string r((const char *) s->a, n * 4); r.append((const char *) &s->b, 4); return r; }
+static std::string ctbytes(const LweSample *s, int n) { std::string r((const char *) s->a, n * 4); r.append((const char *) &s->b, 4); r.append((const char *) &s->current_variance, sizeof(double)); return r; }   // the whole ciphertext: mask, body, variance annotation
 
 int main() {
     std::string line;
